@@ -595,3 +595,59 @@ def pat_binds(p):
         if x["k"] == "ident":
             out.append(x["name"])
     return out
+
+
+def subst_paths(n, env):
+    """Copy of AST node n with every single-segment path that names a key of env replaced by env[name] (no capture analysis:
+    closures / inner lets that re-bind the name stop the substitution for their own scope)."""
+    if isinstance(n, list):
+        return [subst_paths(x, env) for x in n]
+    if not is_node(n):
+        return n
+    if n.get("k") == "path" and len(n.get("segs", [])) == 1 and n["segs"][0] in env:
+        return env[n["segs"][0]]
+    if n.get("k") == "closure":
+        bound = set()
+        for p in n.get("params", []):
+            bound |= set(pat_binds(p))
+        inner = {k: v for k, v in env.items() if k not in bound}
+        return dict(n, body=subst_paths(n["body"], inner))
+    if n.get("k") == "block":
+        inner = dict(env)
+        out = []
+        for st in n["stmts"]:
+            if st.get("k") == "let":
+                st2 = dict(st)
+                if st.get("init") is not None:
+                    st2["init"] = subst_paths(st["init"], inner)
+                for b in pat_binds(st["pat"]):
+                    inner.pop(b, None)
+                out.append(st2)
+            else:
+                out.append(subst_paths(st, inner))
+        return dict(n, stmts=out)
+    return {k: (subst_paths(v, env) if isinstance(v, (dict, list)) and k not in ("pat", "params", "ty") else v) for k, v in n.items()}
+
+
+def inline_lets(block):
+    """`{ let a = e1; let b = e2(a); tail(a, b) }` -> the tail expression with the locals replaced by their initialisers
+    (a named local reads like the expression it names).  Only plain `let <ident> [: T] = init;` statements are inlined; returns None when
+    the block has another kind of statement before its tail."""
+    if block is None or block.get("k") != "block":
+        return block
+    env = {}
+    stmts = block["stmts"]
+    for i, st in enumerate(stmts):
+        last = i == len(stmts) - 1
+        if st["k"] == "let" and st.get("init") is not None:
+            p = st["pat"]
+            while p["k"] == "typed":
+                p = p["pat"]
+            if p["k"] != "ident" or p.get("mut"):
+                return None
+            env[p["name"]] = subst_paths(st["init"], env)
+        elif st["k"] == "expr" and last and not st.get("semi"):
+            return subst_paths(st["e"], env)
+        else:
+            return None
+    return None
